@@ -178,6 +178,14 @@ def _zoo_case(case: dict[str, Any], seed: int) -> dict[str, Any]:
                 ref = registry.eval_jax(fn, xs, {}, False)
                 got = ortrun.run(sess, ortrun.build_feed(sess, xs))
                 c = oracle.compare(ref, got)
+                if c.ok:
+                    # the numeric oracle masks non-finite reference elements (overflow is a kernel matter there);
+                    # in these small semantic programs an exact +-inf of JAX must come out as the same infinity
+                    for k, (r_, g_) in enumerate(zip(ref, got)):
+                        r_, g_ = np.asarray(r_), np.asarray(g_)
+                        if r_.dtype.kind == "f" and r_.shape == g_.shape and np.any(np.isinf(r_) & (g_.astype(np.float64) != r_.astype(np.float64))):
+                            c = oracle.Cmp(False, "nonfinite", f"output {k}: JAX gives {r_.reshape(-1)[:4].tolist()}, the model {g_.reshape(-1)[:4].tolist()}")
+                            break
                 if not c.ok and not c.unstable_only:
                     rec["violations"].append({"family": f"zoo/{name}", "kind": "silent_different_model", "cls": name, "text": f"{name}: exported without error but differs from JAX on {[np.asarray(x).tolist() for x in xs]}: {c.text}"})
                     break
